@@ -67,22 +67,20 @@ impl<'a> Display<'a> {
             used += 1;
         }
 
+        // Something has been cut off only if a digit that is not printed is
+        // non-zero, whether it belongs to the whole part or the fraction.
         let dot = if it.peek().is_some() {
-            true
+            it.clone().any(|d| d != '0') || !rem.is_zero()
         } else {
             let remaining = self.spec.limit - used;
 
             if remaining > 0 {
-                let mut it = emit(&mut rem, den);
-
-                for d in (&mut it).take(remaining) {
+                for d in emit(&mut rem, den).take(remaining) {
                     fmt::Display::fmt(&d, f)?;
                 }
-
-                it.next().is_some()
-            } else {
-                false
             }
+
+            !rem.is_zero()
         };
 
         if dot && self.spec.show_continuation {
@@ -156,10 +154,15 @@ impl fmt::Display for Display<'_> {
         let mut takes_exp = true;
         let mut n = self.spec.limit;
 
-        for d in emit(&mut rem, &den) {
-            if n == 0 {
-                break;
-            }
+        let mut it = emit(&mut rem, &den);
+
+        // NB: only pull a digit while there is room for it, a digit that has
+        // been pulled but not printed would be lost without a trace.
+        while n > 0 {
+            let d = match it.next() {
+                Some(d) => d,
+                None => break,
+            };
 
             if d.is_zero() && takes_exp {
                 exp -= 1;
@@ -196,6 +199,8 @@ impl fmt::Display for Display<'_> {
                 d.fmt(f)?;
             }
         }
+
+        drop(it);
 
         if !rem.is_zero() && self.spec.show_continuation {
             f.write_char('…')?;
